@@ -208,13 +208,16 @@ func (m *Map) point(name string) {
 	}
 }
 
-func (m *Map) Load(key any) (any, bool)               { m.point("map-load"); return m.m.Load(key) }
-func (m *Map) Store(key, value any)                   { m.point("map-store"); m.m.Store(key, value) }
-func (m *Map) Delete(key any)                         { m.point("map-delete"); m.m.Delete(key) }
-func (m *Map) LoadAndDelete(key any) (any, bool)      { m.point("map-lad"); return m.m.LoadAndDelete(key) }
-func (m *Map) LoadOrStore(key, value any) (any, bool) { m.point("map-los"); return m.m.LoadOrStore(key, value) }
-func (m *Map) Range(f func(key, value any) bool)      { m.point("map-range"); m.m.Range(f) }
-func (m *Map) Swap(key, value any) (any, bool)        { m.point("map-swap"); return m.m.Swap(key, value) }
+func (m *Map) Load(key any) (any, bool)          { m.point("map-load"); return m.m.Load(key) }
+func (m *Map) Store(key, value any)              { m.point("map-store"); m.m.Store(key, value) }
+func (m *Map) Delete(key any)                    { m.point("map-delete"); m.m.Delete(key) }
+func (m *Map) LoadAndDelete(key any) (any, bool) { m.point("map-lad"); return m.m.LoadAndDelete(key) }
+func (m *Map) LoadOrStore(key, value any) (any, bool) {
+	m.point("map-los")
+	return m.m.LoadOrStore(key, value)
+}
+func (m *Map) Range(f func(key, value any) bool) { m.point("map-range"); m.m.Range(f) }
+func (m *Map) Swap(key, value any) (any, bool)   { m.point("map-swap"); return m.m.Swap(key, value) }
 func (m *Map) CompareAndSwap(key, old, new any) bool {
 	m.point("map-cas")
 	return m.m.CompareAndSwap(key, old, new)
@@ -230,52 +233,58 @@ func atomPoint() {
 
 type Int32 struct{ v atomic.Int32 }
 
-func (a *Int32) Load() int32                  { atomPoint(); return a.v.Load() }
-func (a *Int32) Store(x int32)                { atomPoint(); a.v.Store(x) }
-func (a *Int32) Add(d int32) int32            { atomPoint(); return a.v.Add(d) }
-func (a *Int32) Swap(x int32) int32           { atomPoint(); return a.v.Swap(x) }
+func (a *Int32) Load() int32                    { atomPoint(); return a.v.Load() }
+func (a *Int32) Store(x int32)                  { atomPoint(); a.v.Store(x) }
+func (a *Int32) Add(d int32) int32              { atomPoint(); return a.v.Add(d) }
+func (a *Int32) Swap(x int32) int32             { atomPoint(); return a.v.Swap(x) }
 func (a *Int32) CompareAndSwap(o, n int32) bool { atomPoint(); return a.v.CompareAndSwap(o, n) }
 
 type Int64 struct{ v atomic.Int64 }
 
-func (a *Int64) Load() int64                  { atomPoint(); return a.v.Load() }
-func (a *Int64) Store(x int64)                { atomPoint(); a.v.Store(x) }
-func (a *Int64) Add(d int64) int64            { atomPoint(); return a.v.Add(d) }
-func (a *Int64) Swap(x int64) int64           { atomPoint(); return a.v.Swap(x) }
+func (a *Int64) Load() int64                    { atomPoint(); return a.v.Load() }
+func (a *Int64) Store(x int64)                  { atomPoint(); a.v.Store(x) }
+func (a *Int64) Add(d int64) int64              { atomPoint(); return a.v.Add(d) }
+func (a *Int64) Swap(x int64) int64             { atomPoint(); return a.v.Swap(x) }
 func (a *Int64) CompareAndSwap(o, n int64) bool { atomPoint(); return a.v.CompareAndSwap(o, n) }
 
 type Uint32 struct{ v atomic.Uint32 }
 
-func (a *Uint32) Load() uint32                  { atomPoint(); return a.v.Load() }
-func (a *Uint32) Store(x uint32)                { atomPoint(); a.v.Store(x) }
-func (a *Uint32) Add(d uint32) uint32           { atomPoint(); return a.v.Add(d) }
+func (a *Uint32) Load() uint32                    { atomPoint(); return a.v.Load() }
+func (a *Uint32) Store(x uint32)                  { atomPoint(); a.v.Store(x) }
+func (a *Uint32) Add(d uint32) uint32             { atomPoint(); return a.v.Add(d) }
 func (a *Uint32) CompareAndSwap(o, n uint32) bool { atomPoint(); return a.v.CompareAndSwap(o, n) }
 
 type Uint64 struct{ v atomic.Uint64 }
 
-func (a *Uint64) Load() uint64                  { atomPoint(); return a.v.Load() }
-func (a *Uint64) Store(x uint64)                { atomPoint(); a.v.Store(x) }
-func (a *Uint64) Add(d uint64) uint64           { atomPoint(); return a.v.Add(d) }
+func (a *Uint64) Load() uint64                    { atomPoint(); return a.v.Load() }
+func (a *Uint64) Store(x uint64)                  { atomPoint(); a.v.Store(x) }
+func (a *Uint64) Add(d uint64) uint64             { atomPoint(); return a.v.Add(d) }
 func (a *Uint64) CompareAndSwap(o, n uint64) bool { atomPoint(); return a.v.CompareAndSwap(o, n) }
 
 type Bool struct{ v atomic.Bool }
 
-func (a *Bool) Load() bool                   { atomPoint(); return a.v.Load() }
-func (a *Bool) Store(x bool)                 { atomPoint(); a.v.Store(x) }
-func (a *Bool) Swap(x bool) bool             { atomPoint(); return a.v.Swap(x) }
+func (a *Bool) Load() bool                    { atomPoint(); return a.v.Load() }
+func (a *Bool) Store(x bool)                  { atomPoint(); a.v.Store(x) }
+func (a *Bool) Swap(x bool) bool              { atomPoint(); return a.v.Swap(x) }
 func (a *Bool) CompareAndSwap(o, n bool) bool { atomPoint(); return a.v.CompareAndSwap(o, n) }
 
-func AddInt32(p *int32, d int32) int32   { atomPoint(); return atomic.AddInt32(p, d) }
-func AddInt64(p *int64, d int64) int64   { atomPoint(); return atomic.AddInt64(p, d) }
+func AddInt32(p *int32, d int32) int32     { atomPoint(); return atomic.AddInt32(p, d) }
+func AddInt64(p *int64, d int64) int64     { atomPoint(); return atomic.AddInt64(p, d) }
 func AddUint32(p *uint32, d uint32) uint32 { atomPoint(); return atomic.AddUint32(p, d) }
 func AddUint64(p *uint64, d uint64) uint64 { atomPoint(); return atomic.AddUint64(p, d) }
-func LoadInt32(p *int32) int32           { atomPoint(); return atomic.LoadInt32(p) }
-func LoadInt64(p *int64) int64           { atomPoint(); return atomic.LoadInt64(p) }
-func LoadUint32(p *uint32) uint32        { atomPoint(); return atomic.LoadUint32(p) }
-func LoadUint64(p *uint64) uint64        { atomPoint(); return atomic.LoadUint64(p) }
-func StoreInt32(p *int32, v int32)       { atomPoint(); atomic.StoreInt32(p, v) }
-func StoreInt64(p *int64, v int64)       { atomPoint(); atomic.StoreInt64(p, v) }
-func StoreUint32(p *uint32, v uint32)    { atomPoint(); atomic.StoreUint32(p, v) }
-func StoreUint64(p *uint64, v uint64)    { atomPoint(); atomic.StoreUint64(p, v) }
-func CompareAndSwapInt32(p *int32, o, n int32) bool { atomPoint(); return atomic.CompareAndSwapInt32(p, o, n) }
-func CompareAndSwapInt64(p *int64, o, n int64) bool { atomPoint(); return atomic.CompareAndSwapInt64(p, o, n) }
+func LoadInt32(p *int32) int32             { atomPoint(); return atomic.LoadInt32(p) }
+func LoadInt64(p *int64) int64             { atomPoint(); return atomic.LoadInt64(p) }
+func LoadUint32(p *uint32) uint32          { atomPoint(); return atomic.LoadUint32(p) }
+func LoadUint64(p *uint64) uint64          { atomPoint(); return atomic.LoadUint64(p) }
+func StoreInt32(p *int32, v int32)         { atomPoint(); atomic.StoreInt32(p, v) }
+func StoreInt64(p *int64, v int64)         { atomPoint(); atomic.StoreInt64(p, v) }
+func StoreUint32(p *uint32, v uint32)      { atomPoint(); atomic.StoreUint32(p, v) }
+func StoreUint64(p *uint64, v uint64)      { atomPoint(); atomic.StoreUint64(p, v) }
+func CompareAndSwapInt32(p *int32, o, n int32) bool {
+	atomPoint()
+	return atomic.CompareAndSwapInt32(p, o, n)
+}
+func CompareAndSwapInt64(p *int64, o, n int64) bool {
+	atomPoint()
+	return atomic.CompareAndSwapInt64(p, o, n)
+}
